@@ -230,7 +230,9 @@ func (g *GpuResourceRequirement) GpusAsString() string {
 func getExtendedResourceGpus(portion float64, count int64) float64 {
 	// use fixed-point arithmetic to avoid floating point errors
 	portionAsDecimals := int64(math.Round(portion * gpuPortionsAsDecimalsRoundingFactor))
-	return float64(portionAsDecimals*count) / gpuPortionsAsDecimalsRoundingFactor
+	// the product is taken in floating point (exact up to 2^53) so that a huge device count cannot
+	// overflow int64 and turn the request negative
+	return float64(portionAsDecimals) * float64(count) / gpuPortionsAsDecimalsRoundingFactor
 }
 
 func IsMigResource(rName v1.ResourceName) bool {
